@@ -27,6 +27,7 @@ func c11(c *Ctx) {
 	c11containers(c)
 	c11wrappers(c)
 	c11ticker(c)
+	c11covered(c)
 	if os.Getenv("GZV_LOCK_SCAN") != "" {
 		for _, pk := range c.P.Pkgs {
 			for _, f := range c.P.AllFuncs(strings.TrimPrefix(pk.PkgPath, mod)) {
@@ -870,4 +871,93 @@ func c11ticker(c *Ctx) {
 		}
 	})
 	c.R.Check(len(bad) == 0 && n == 1, rule, execPkg+".(*PeriodicalExecutor).backgroundFlush$ticker", "the ticker stopped by a quitting flusher was created by that flusher (one ticker per goroutine)", posOf(c, f), strings.Join(bad, "; ")+map[bool]string{true: "", false: fmt.Sprintf(" (%d deferred Stop of a ticker found)", n)}[n == 1], bad, n)
+}
+
+// c11covered (R12, round 7): what Wait can see. "Wait returns only after the callbacks for all tasks added before it have
+// returned" rests on an invariant: outside pe.lock's critical sections every accepted task is either still in the
+// container (Wait's own Flush takes it) or belongs to a batch registered with the wait group (Wait waits for it). A
+// batch therefore leaves the container (container.RemoveAll) only when it is already registered — enterExecution
+// earlier on the path, as Flush does — or is registered before pe.lock is released. (Registering under the lock is
+// ruled out by R1's lock order, so pre-registration is the only shape left.) A batch that is taken out under the lock
+// and registered later by whoever receives it is invisible in between: a Wait that starts then returns while tasks whose
+// Add had returned are still waiting to be handed over.
+func c11covered(c *Ctx) {
+	rule := "C11.R12"
+	pk := c.P.Pkg(execPkg)
+	if pk == nil {
+		return
+	}
+	tn, _ := pk.Types.Scope().Lookup("PeriodicalExecutor").(*types.TypeName)
+	if tn == nil {
+		c.R.Undecided(rule, execPkg+".PeriodicalExecutor", "anchor resolves", "type missing")
+		return
+	}
+	ms := types.NewMethodSet(types.NewPointer(tn.Type()))
+	n := 0
+	for i := 0; i < ms.Len(); i++ {
+		fo, _ := ms.At(i).Obj().(*types.Func)
+		f := c.P.FuncOf(fo)
+		if f == nil || f.Blocks == nil {
+			continue
+		}
+		removes := callsInBodyDeep(f, func(cc *ssa.CallCommon) bool {
+			return cc.IsInvoke() && cc.Method.Name() == "RemoveAll"
+		})
+		if !removes {
+			continue
+		}
+		n++
+		ps := c.paths(rule, f, px.Config{MayPanic: func(ci *px.CallInfo) bool { return false }})
+		name := execPkg + ".(*PeriodicalExecutor)." + fo.Name() + "#batch-registered"
+		c.forall(rule, name, "a batch leaves the container only when it is already registered with the wait group (enterExecution earlier on the path) or is registered before pe.lock is released — otherwise a Wait in between sees neither the tasks nor their batch", f, ps, func(p *px.Path) (bool, string) {
+			registered := false
+			for i := range p.Events {
+				e := &p.Events[i]
+				if e.Kind != px.EvCall || e.Call == nil {
+					continue
+				}
+				if w := waitsForExecutions(e); w == "pe.enterExecution()" || w == "waitGroup.Add" {
+					registered = true
+					continue
+				}
+				if !(e.Call.Method != nil && e.Call.Method.Name() == "RemoveAll" && px.IsFieldLoad(e.Call.Recv, "container", nil)) {
+					continue
+				}
+				if registered {
+					continue
+				}
+				ok := false
+				for j := i + 1; j < len(p.Events); j++ {
+					e2 := &p.Events[j]
+					if lockOn("lock", "Unlock")(e2) {
+						break
+					}
+					if e2.Kind == px.EvCall && e2.Call != nil {
+						if w := waitsForExecutions(e2); w == "pe.enterExecution()" || w == "waitGroup.Add" {
+							ok = true
+							break
+						}
+					}
+				}
+				if !ok {
+					return false, "the batch removed at " + c.P.Pos(e.Pos) + " is not registered with the wait group when pe.lock is released: until its receiver registers it, Wait covers neither the tasks nor the batch"
+				}
+			}
+			return true, ""
+		})
+	}
+	c.R.Min(rule, 2, "Flush and addAndCheck take batches out of the container")
+}
+
+// callsInBodyDeep: callsInBody over f and the closures it contains.
+func callsInBodyDeep(f *ssa.Function, pr func(cc *ssa.CallCommon) bool) bool {
+	if callsInBody(f, pr) {
+		return true
+	}
+	for _, a := range f.AnonFuncs {
+		if callsInBodyDeep(a, pr) {
+			return true
+		}
+	}
+	return false
 }
